@@ -19,7 +19,7 @@ use crate::rng;
 pub enum Path {
     /// encrypt()/sign() with the library's own RNG (seeded stream where interceptable)
     Lib,
-    /// the library's own RNG path with the draw scripted: 0 = all-zero, 1 = all-ones, 2 = repeated byte pattern
+    /// the library's own RNG path (generic seal) with the draw scripted: 0 = all-zero, 1 = all-ones, 2 = repeated byte pattern
     Scripted(u8),
     /// dangerous_seal_with_nonce with a caller nonce of the version's own length
     Dangerous(u32),
@@ -27,6 +27,9 @@ pub enum Path {
 
 #[derive(Clone, Debug, Serialize, Deserialize)]
 pub struct Case {
+    /// entry points: 0 generic seal/unseal, 1 *_with_aad aliases, 2 plain aliases (when the assertion is empty)
+    #[serde(default)]
+    pub via: (u8, u8),
     /// use the payload type with a non-empty encoding suffix
     #[serde(default)]
     pub suffix: bool,
@@ -53,8 +56,10 @@ fn strat<B: Backend>(tier: Tier, public: bool) -> impl Strategy<Value = Case> {
         gen_::assertion(B::VER.has_assertion()),
         path,
         prop::bool::weighted(0.3),
+        (0u8..3, 0u8..3),
     )
-        .prop_map(move |(key_random, key, msg, footer, assertion, path, suffix)| Case {
+        .prop_map(move |(key_random, key, msg, footer, assertion, path, suffix, via)| Case {
+            via,
             suffix,
             public,
             key_random: key_random && B::VER != model::Ver::V1, // RSA generation is too slow per case
@@ -66,7 +71,7 @@ fn strat<B: Backend>(tier: Tier, public: bool) -> impl Strategy<Value = Case> {
         })
 }
 
-fn roundtrip<B: Backend, P: Purpose, M: BytesPayload>(
+fn roundtrip<B: Backend, P: Aliases<V<B>>, M: BytesPayload>(
     acc: &mut Acc,
     c: &Case,
     sealing: &Key<V<B>, P::SealingKey>,
@@ -86,7 +91,8 @@ where
     let draw_len = if c.public { 0 } else { ver.local_draw_len() };
     let sealed = match &c.path {
         Path::Lib => {
-            tok.seal(sealing, &i)
+            acc.class(&format!("entry:{}", P::alias_name(c.via.0, i.is_empty(), true)));
+            P::seal_via(c.via.0, tok, sealing, &i)
         }
         Path::Scripted(k) if B::GETRANDOM && !c.public => {
             // we do not know how many bytes the library will ask for; script both candidate widths
@@ -152,7 +158,8 @@ where
         format!("C01/{name}/{purpose}/parse/reserialise"),
         "parse -> to_string is not the identity"
     );
-    let un = parsed.unseal(unsealing, &i, &NoValidation::dangerous_no_validation()).map_err(|e| {
+    acc.class(&format!("entry:{}", P::alias_name(c.via.1, i.is_empty(), false)));
+    let un = P::unseal_via(c.via.1, parsed, unsealing, &i, &NoValidation::dangerous_no_validation()).map_err(|e| {
         Fail::new(
             format!("C01/{name}/{purpose}/unseal/err-{}", err_kind(&e)),
             format!("unsealing own token with the matching key failed: {e}"),
@@ -353,7 +360,7 @@ pub fn def() -> PropertyDef {
     PropertyDef {
         id: "C01",
         level: "exploration",
-        rule: "proptest cases (back end x purpose x key source x payload encoding suffix {none, non-empty} x payload spec x footer x assertion x seal path {library RNG, scripted draw, caller nonce}); oracle = round-trip identity + spec payload length + re-serialisation; a second family of cases uses the typed payload / footer types of the public API (Json<Value>, RegisteredClaims, (), Json<Value> and Json<struct> footers); non-trivial iff payload longer than one cipher block, or non-empty footer or assertion, or a parsed (not random()) key; distinct by descriptor hash",
+        rule: "proptest cases (back end x purpose x key source x payload encoding suffix {none, non-empty} x payload spec x footer x assertion x seal path {library RNG, scripted draw, caller nonce} x entry point {seal/unseal, encrypt|sign[_with_aad], decrypt|verify[_with_aad]}); oracle = round-trip identity + spec payload length + re-serialisation; a second family of cases uses the typed payload / footer types of the public API (Json<Value>, RegisteredClaims, (), Json<Value> and Json<struct> footers); non-trivial iff payload longer than one cipher block, or non-empty footer or assertion, or a parsed (not random()) key; distinct by descriptor hash",
         assumptions: vec![
             "aws-lc and libsodium draw from their own OS-seeded generators (not scripted); rare signature shapes are reached by volume",
             "payload type is a raw-bytes Payload with SUFFIX \"\" (same header as JSON)",
